@@ -3,6 +3,7 @@
   Property theorems only (helper lemmas live in Proofs/Lemmas/Metrics.lean).
 -/
 import SoundeventModel.Metrics
+import SoundeventModel.Detection
 import Proofs.Lemmas.Metrics
 namespace SE.Proofs.C09
 open SE SE.Metrics
@@ -57,6 +58,42 @@ theorem C09_labels_of_table (task : Task) (lvl : Level) (t : List Row)
       simp only [Bool.and_eq_true, beq_iff_eq] at h1
       simp only [List.map_cons, List.cons.injEq]
       exact ⟨h1.2, ih hm.2 ms ha'.2⟩
+
+private def labelOfFn (f : String) : String := match Metric.ofFn f with | some m => m.label | none => ""
+
+private theorem ofFn_fn' (m : Metric) : Metric.ofFn m.fn = some m := by cases m <;> decide
+
+/-- order-insensitive form of `C09_labels_of_table`: the labels the code attaches at a level are
+    the labels the model attaches, as a multiset -/
+theorem C09_labels_of_table_perm (task : Task) (lvl : Level) (t : List Row)
+    (ha : TableAgreesPerm task lvl t = true) (hm : TermMatchesFunction t = true) :
+    (t.map (·.termLabel)).Perm ((taskMetrics task lvl).map (·.label)) := by
+  unfold TableAgreesPerm at ha
+  rw [List.isPerm_iff] at ha
+  have h1 : t.map (·.termLabel) = (t.map (·.fn)).map labelOfFn := by
+    rw [List.map_map]
+    apply List.map_congr_left
+    intro r hr
+    unfold TermMatchesFunction at hm
+    rw [List.all_eq_true] at hm
+    have h := hm r hr
+    simp only [Function.comp, labelOfFn]
+    cases hf : Metric.ofFn r.fn with
+    | none => simp [hf] at h
+    | some m =>
+      simp only [hf, Bool.and_eq_true, beq_iff_eq] at h
+      exact h.2
+  have h2 : (taskMetrics task lvl).map (·.label) = ((taskMetrics task lvl).map (·.fn)).map labelOfFn := by
+    rw [List.map_map]
+    apply List.map_congr_left
+    intro m _
+    simp [Function.comp, labelOfFn, ofFn_fn']
+  rw [h1, h2]
+  exact ha.map _
+
+example : TableAgreesPerm .clipMultilabel .example
+    [⟨"soundevent_metrics:averagePrecision", "Average Precision", "average_precision"⟩,
+     ⟨"soundevent_metrics:jaccard", "Jaccard Index", "jaccard"⟩] = true := by decide
 
 /-- the model's own driver tables have pairwise distinct labels at every level of every task -/
 theorem C09_model_tables_distinct (task : Task) (lvl : Level) :
@@ -336,9 +373,24 @@ def secClipOut (C : Nat) (x : Nat × List SEAnn × List SEPred) : ClipOut :=
     score := if ms.isEmpty then none else some (mean (ms.map (fun m => tcp m.2.2))),
     mts := ms.map secMatchOutV }
 
-theorem secClip_eq (C : Nat) (x : Nat × List SEAnn × List SEPred) :
+/-- the clip's predictions and annotations refer to the same sound events one-to-one (what
+    `ClipEvaluation` demands of the matches) -/
+def secOneToOne (C : Nat) (x : Nat × List SEAnn × List SEPred) : Prop :=
+  secCovered x.2.2.length x.2.1.length (secMatches C x.2.1 x.2.2) = true
+
+theorem secClip_covered (C : Nat) (x : Nat × List SEAnn × List SEPred) (r : ClipOut × List Item)
+    (h : secClip C x = .ok r) : secOneToOne C x := by
+  unfold secClip at h
+  unfold secOneToOne
+  cases hc : secCovered x.2.2.length x.2.1.length (secMatches C x.2.1 x.2.2) with
+  | true => rfl
+  | false => simp [hc, throw, throwThe, MonadExceptOf.throw, bind, Except.bind] at h
+
+theorem secClip_eq (C : Nat) (x : Nat × List SEAnn × List SEPred) (hc : secOneToOne C x) :
     secClip C x = .ok (secClipOut C x, (secMatches C x.2.1 x.2.2).map (·.2.2)) := by
   unfold secClip
+  unfold secOneToOne at hc
+  simp only [hc, Bool.not_true, Bool.false_eq_true, if_false]
   have hm : (secMatches C x.2.1 x.2.2).mapM secMatchOut = .ok ((secMatches C x.2.1 x.2.2).map secMatchOutV) := by
     apply mapM_total
     intro m
@@ -358,12 +410,20 @@ theorem C09_sound_event_classification_spec (C : Nat) (preds : List (Nat × List
     out.metrics = [("Balanced Accuracy", balancedAccuracy C items), ("Accuracy", accuracy C items),
                    ("Top 3 Accuracy", topK 3 C items)] ∧
     out.clips = pairs.map (secClipOut C) ∧
-    out.score = overallScore out.clips := by
+    out.score = overallScore out.clips ∧
+    ∀ x ∈ pairs, secOneToOne C x := by
   intro pairs items
   unfold soundEventClassification at h
+  have hcov : ∀ x ∈ pairs, secOneToOne C x := by
+    cases hrs0 : (pairClips preds anns).mapM (secClip C) with
+    | error e => simp [hrs0, bind, Except.bind] at h
+    | ok rs0 =>
+      intro x hx
+      obtain ⟨b, hb⟩ := ((mapM_ok_iff _ _ _).mp hrs0).1 x hx
+      exact secClip_covered C x b hb
   have hrs : (pairClips preds anns).mapM (secClip C) =
       .ok (pairs.map (fun x => (secClipOut C x, (secMatches C x.2.1 x.2.2).map (·.2.2)))) :=
-    mapM_total _ _ (secClip_eq C) _
+    mapM_total_mem _ _ _ (fun x hx => secClip_eq C x (hcov x hx))
   simp only [hrs, bind, Except.bind] at h
   have hitems : (List.map (fun x => x.2) (pairs.map (fun x => (secClipOut C x, (secMatches C x.2.1 x.2.2).map (·.2.2))))).flatten
       = items := by simp [items, List.map_map, Function.comp_def]
@@ -379,7 +439,7 @@ theorem C09_sound_event_classification_spec (C : Nat) (preds : List (Nat × List
   · simp [he, throw, throwThe, MonadExceptOf.throw] at h
   · simp only [he, Bool.false_eq_true, if_false, pure, Except.pure, hfs, Except.ok.injEq] at h
     subst h
-    refine ⟨?_, rfl, rfl, rfl⟩
+    refine ⟨?_, rfl, rfl, rfl, hcov⟩
     intro e; simp [e] at he
 
 /-- the clip evaluation `clip_multilabel_classification` builds for one evaluated clip, given its score -/
@@ -483,6 +543,340 @@ theorem C09_features_labels (ms : List Metric) (f : Metric → Option Rat) (fs :
       subst hab
       simp [ih]
 
+/-! ### every metric list of every task: distinct terms, and they survive AOEF (review additions) -/
+
+/-- the labels of a metric list are pairwise distinct -/
+def DistinctTerms (fs : Features) : Prop := (fs.map (·.1)).Nodup
+
+/-- every metric list of a result — the evaluation's, every clip evaluation's, every match's —
+    carries pairwise distinct terms -/
+def AllTermsDistinct (out : EvalOut) : Prop :=
+  DistinctTerms out.metrics ∧ ∀ c ∈ out.clips, DistinctTerms c.metrics ∧ ∀ m ∈ c.mts, DistinctTerms m.metrics
+
+/-- every metric list of a result comes back unchanged from the label-keyed AOEF mapping -/
+def AllSurviveAoef (out : EvalOut) : Prop :=
+  fromDict (toDict out.metrics) = out.metrics ∧
+  ∀ c ∈ out.clips, fromDict (toDict c.metrics) = c.metrics ∧ ∀ m ∈ c.mts, fromDict (toDict m.metrics) = m.metrics
+
+/-- a metric list computed from a table of the model has pairwise distinct terms -/
+theorem C09_features_distinct (task : Task) (lvl : Level) (f : Metric → Option Rat) (fs : Features)
+    (h : features (taskMetrics task lvl) f = .ok fs) : DistinctTerms fs := by
+  unfold DistinctTerms
+  rw [C09_features_labels _ f fs h]
+  exact C09_model_tables_distinct task lvl
+
+theorem C09_distinct_terms_survive_aoef (out : EvalOut) (h : AllTermsDistinct out) : AllSurviveAoef out :=
+  ⟨C09_survives_aoef _ h.1, fun c hc => ⟨C09_survives_aoef _ (h.2 c hc).1,
+    fun m hm => C09_survives_aoef _ ((h.2 c hc).2 m hm)⟩⟩
+
+theorem C09_terms_distinct_clip_classification (C : Nat) (preds : List (Nat × CCPred)) (anns : List (Nat × CCAnn))
+    (out : EvalOut) (h : clipClassification C preds anns = .ok out) : AllTermsDistinct out := by
+  obtain ⟨_, hm, hc, _⟩ := C09_clip_classification_spec C preds anns out h
+  refine ⟨by rw [DistinctTerms, hm]; simp only [List.map_cons, List.map_nil]; decide, ?_⟩
+  intro c hcm
+  rw [hc] at hcm
+  obtain ⟨x, _, rfl⟩ := List.mem_map.mp hcm
+  exact ⟨by simp [DistinctTerms, ccClipOut], by simp [ccClipOut]⟩
+
+theorem C09_terms_distinct_sound_event_classification (C : Nat) (preds : List (Nat × List SEPred))
+    (anns : List (Nat × List SEAnn)) (out : EvalOut) (h : soundEventClassification C preds anns = .ok out) :
+    AllTermsDistinct out := by
+  obtain ⟨_, hm, hc, _⟩ := C09_sound_event_classification_spec C preds anns out h
+  refine ⟨by rw [DistinctTerms, hm]; simp only [List.map_cons, List.map_nil]; decide, ?_⟩
+  intro c hcm
+  rw [hc] at hcm
+  obtain ⟨x, _, rfl⟩ := List.mem_map.mp hcm
+  refine ⟨by simp [DistinctTerms, secClipOut], ?_⟩
+  intro m hm
+  simp only [secClipOut] at hm
+  obtain ⟨e, _, rfl⟩ := List.mem_map.mp hm
+  simp [DistinctTerms, secMatchOutV]
+
+
+/-- `clip_multilabel_classification` in closed form (no hypothesis on the number of scores) -/
+theorem clipMultilabel_eq (C : Nat) (preds : List (Nat × CCPred)) (anns : List (Nat × CCAnn))
+    (scores : List Rat) (out : EvalOut) (h : clipMultilabel C preds anns scores = .ok out) :
+    out.metrics = [("Mean Average Precision",
+        meanAveragePrecisionML C ((pairClips preds anns).map (fun x => mlItem C x.2.1 x.2.2)))] ∧
+    out.clips = ((pairClips preds anns).zip scores).map (fun x => mlClipOut C x.1 x.2) ∧
+    out.score = overallScore out.clips := by
+  unfold clipMultilabel at h
+  by_cases he : (pairClips preds anns).isEmpty = true
+  · simp [he, throw, throwThe, MonadExceptOf.throw, bind, Except.bind] at h
+  by_cases hC : C ≤ 1
+  · simp [he, hC, throw, throwThe, MonadExceptOf.throw, bind, Except.bind, pure, Except.pure] at h
+  simp only [he, hC, Bool.false_eq_true, if_false, pure, Except.pure, bind, Except.bind] at h
+  have hcl : ((pairClips preds anns).zip scores).mapM (fun (x, s) => do
+        let fs ← features (taskMetrics .clipMultilabel .example) (itemMetricML (mlItem C x.2.1 x.2.2))
+        return ({ clip := x.1, metrics := fs, score := some s, mts := [] } : ClipOut)) =
+      .ok (((pairClips preds anns).zip scores).map (fun (x, s) => mlClipOut C x s)) := by
+    apply mapM_total
+    rintro ⟨x, s⟩
+    simp [mlClipOut, features, taskMetrics, itemMetricML, Metric.label, List.mapM_cons, List.mapM_nil, bind, Except.bind,
+      pure, Except.pure]
+  simp only [bind, Except.bind, pure, Except.pure] at hcl
+  simp only [hcl] at h
+  have hfs : features (taskMetrics .clipMultilabel .run)
+      (runMetricML C ((pairClips preds anns).map (fun x => mlItem C x.2.1 x.2.2))) =
+      .ok [("Mean Average Precision", meanAveragePrecisionML C ((pairClips preds anns).map (fun x => mlItem C x.2.1 x.2.2)))] := by
+    simp [features, taskMetrics, runMetricML, Metric.label, List.mapM_cons, List.mapM_nil, bind, Except.bind,
+      pure, Except.pure]
+  rw [hfs] at h
+  simp only [Except.ok.injEq] at h
+  subst h
+  exact ⟨rfl, rfl, rfl⟩
+
+theorem C09_terms_distinct_clip_multilabel (C : Nat) (preds : List (Nat × CCPred)) (anns : List (Nat × CCAnn))
+    (scores : List Rat) (out : EvalOut) (h : clipMultilabel C preds anns scores = .ok out) :
+    AllTermsDistinct out := by
+  obtain ⟨hm, hc, _⟩ := clipMultilabel_eq C preds anns scores out h
+  refine ⟨by rw [DistinctTerms, hm]; simp, ?_⟩
+  intro c hcm
+  rw [hc] at hcm
+  obtain ⟨x, _, rfl⟩ := List.mem_map.mp hcm
+  exact ⟨by simp only [DistinctTerms, mlClipOut, List.map_cons, List.map_nil]; decide, by simp [mlClipOut]⟩
+
+/-- the match `evaluate_clip` builds from an entry (a metric only for a pair) -/
+theorem entryOut_metrics (e : Detection.Entry) (m : MatchOut) (h : Detection.entryOut e = .ok m) :
+    DistinctTerms m.metrics := by
+  unfold Detection.entryOut at h
+  cases hp : e.paired with
+  | false =>
+    simp [hp, bind, Except.bind, pure, Except.pure] at h
+    subst h; simp [DistinctTerms]
+  | true =>
+    simp only [hp, if_true, bind, Except.bind] at h
+    cases hf : features (taskMetrics .soundEventDetection .soundEvent) (itemMetricSL e.item) with
+    | error err => simp [hf] at h
+    | ok fs =>
+      simp [hf, pure, Except.pure] at h
+      subst h
+      exact C09_features_distinct _ _ _ _ hf
+
+/-- `sound_event_detection`, with any matcher answer (no contract needed for this clause) -/
+theorem C09_terms_distinct_sound_event_detection (C : Nat) (preds : List (Nat × Detection.PredClip))
+    (anns : List (Nat × List SEAnn)) (out : EvalOut) (h : Detection.soundEventDetection C preds anns = .ok out) :
+    AllTermsDistinct out := by
+  unfold Detection.soundEventDetection at h
+  cases hrs : (Detection.pairClips preds anns).mapM (Detection.detClip C) with
+  | error e => simp [hrs, bind, Except.bind] at h
+  | ok rs =>
+    simp only [hrs, bind, Except.bind] at h
+    have hclip : ∀ r ∈ rs, DistinctTerms r.1.metrics ∧ ∀ m ∈ r.1.mts, DistinctTerms m.metrics := by
+      intro r hr
+      obtain ⟨x, _, hx⟩ := mapM_ok_mem _ _ _ hrs hr
+      unfold Detection.detClip at hx
+      cases he : Detection.evalClip C x.2.2.events x.2.1 x.2.2.matcher with
+      | none => simp [he, throw, throwThe, MonadExceptOf.throw] at hx
+      | some es =>
+        simp only [he, bind, Except.bind] at hx
+        cases ho : es.mapM Detection.entryOut with
+        | error err => simp [ho] at hx
+        | ok outs =>
+          simp only [ho, pure, Except.pure, Except.ok.injEq] at hx
+          subst hx
+          refine ⟨by simp [DistinctTerms], ?_⟩
+          intro m hm
+          obtain ⟨a, _, hab⟩ := mapM_ok_mem _ _ _ ho hm
+          exact entryOut_metrics a _ hab
+    split at h
+    · simp only [pure, Except.pure, Except.ok.injEq] at h
+      subst h
+      refine ⟨by simp [DistinctTerms], ?_⟩
+      intro c hc
+      obtain ⟨r, hr, rfl⟩ := List.mem_map.mp hc
+      exact hclip r hr
+    · cases hf : features (taskMetrics .soundEventDetection .run)
+          (runMetricSL C (rs.map (·.2)).flatten) with
+      | error err => simp [hf] at h
+      | ok fs =>
+        simp only [hf, pure, Except.pure, Except.ok.injEq] at h
+        subst h
+        refine ⟨C09_features_distinct _ _ _ _ hf, ?_⟩
+        intro c hc
+        obtain ⟨r, hr, rfl⟩ := List.mem_map.mp hc
+        exact hclip r hr
+
+
+/-! ### the whole result does not depend on the order of the clips (review additions) -/
+
+/-- `clip_classification` succeeds as soon as one clip is evaluated, with this result -/
+theorem clipClassification_ok (C : Nat) (preds : List (Nat × CCPred)) (anns : List (Nat × CCAnn))
+    (hne : pairClips preds anns ≠ []) :
+    ∃ out, clipClassification C preds anns = .ok out := by
+  unfold clipClassification
+  have hclips : (pairClips preds anns).mapM (ccClip C) = .ok ((pairClips preds anns).map (ccClipOut C)) := by
+    apply mapM_total
+    intro x
+    simp [ccClip, ccClipOut, features, taskMetrics, itemMetricSL, Metric.label, List.mapM_cons, List.mapM_nil,
+      bind, Except.bind, pure, Except.pure]
+  have he : (List.map (fun x => ccItem C x.2.1 x.2.2) (pairClips preds anns)).isEmpty = false := by
+    simpa using hne
+  simp [hclips, he, bind, Except.bind, pure, Except.pure, features, taskMetrics, runMetricSL, List.mapM_cons,
+    List.mapM_nil]
+
+/-- permuting the prediction list and the annotation list (annotated clip ids pairwise distinct)
+    leaves every run-level metric and the overall score of `clip_classification` unchanged and
+    permutes the clip evaluations -/
+theorem C09_perm_clip_classification (C : Nat) {preds preds' : List (Nat × CCPred)} {anns anns' : List (Nat × CCAnn)}
+    (hp : preds.Perm preds') (ha : anns.Perm anns') (hn : (anns.map (·.1)).Nodup) (out : EvalOut)
+    (h : clipClassification C preds anns = .ok out) :
+    ∃ out', clipClassification C preds' anns' = .ok out' ∧ out'.metrics = out.metrics ∧ out'.score = out.score ∧
+      out'.clips.Perm out.clips := by
+  have hpairs := C09_perm_pair_clips hp ha hn
+  obtain ⟨hne, hm, hc, hs⟩ := C09_clip_classification_spec C preds anns out h
+  have hne' : pairClips preds' anns' ≠ [] := by
+    intro e; rw [e] at hpairs; have := hpairs.length_eq; simp at this; simp [this] at hne
+  obtain ⟨out', h'⟩ := clipClassification_ok C preds' anns' hne'
+  obtain ⟨_, hm', hc', hs'⟩ := C09_clip_classification_spec C preds' anns' out' h'
+  have hitems : ((pairClips preds' anns').map (fun x => ccItem C x.2.1 x.2.2)).Perm
+      ((pairClips preds anns).map (fun x => ccItem C x.2.1 x.2.2)) := (hpairs.map _).symm
+  refine ⟨out', h', ?_, ?_, ?_⟩
+  · rw [hm, hm', balancedAccuracy_perm C hitems, accuracy_perm C hitems, topK_perm 3 C hitems]
+  · rw [hs, hs']; exact mean_perm (hitems.map _)
+  · rw [hc, hc']; exact (hpairs.map _).symm
+
+theorem soundEventClassification_ok (C : Nat) (preds : List (Nat × List SEPred)) (anns : List (Nat × List SEAnn))
+    (hne : ((pairClips preds anns).map (fun x => (secMatches C x.2.1 x.2.2).map (·.2.2))).flatten ≠ [])
+    (hcov : ∀ x ∈ pairClips preds anns, secOneToOne C x) :
+    ∃ out, soundEventClassification C preds anns = .ok out := by
+  unfold soundEventClassification
+  have hrs : (pairClips preds anns).mapM (secClip C) =
+      .ok ((pairClips preds anns).map (fun x => (secClipOut C x, (secMatches C x.2.1 x.2.2).map (·.2.2)))) :=
+    mapM_total_mem _ _ _ (fun x hx => secClip_eq C x (hcov x hx))
+  have he : (List.map (fun x => x.2) ((pairClips preds anns).map
+      (fun x => (secClipOut C x, (secMatches C x.2.1 x.2.2).map (·.2.2))))).flatten.isEmpty = false := by
+    simp only [List.map_map, Function.comp_def]
+    cases hh : (List.map (fun x => List.map (fun x => x.2.2) (secMatches C x.2.1 x.2.2)) (pairClips preds anns)).flatten with
+    | nil => exact absurd hh hne
+    | cons a l => rfl
+  simp only [hrs, bind, Except.bind, he, Bool.false_eq_true, if_false, pure, Except.pure]
+  simp [features, taskMetrics, runMetricSL, List.mapM_cons, List.mapM_nil, bind, Except.bind, pure, Except.pure]
+
+theorem C09_perm_sound_event_classification (C : Nat) {preds preds' : List (Nat × List SEPred)}
+    {anns anns' : List (Nat × List SEAnn)}
+    (hp : preds.Perm preds') (ha : anns.Perm anns') (hn : (anns.map (·.1)).Nodup) (out : EvalOut)
+    (h : soundEventClassification C preds anns = .ok out) :
+    ∃ out', soundEventClassification C preds' anns' = .ok out' ∧ out'.metrics = out.metrics ∧
+      out'.score = out.score ∧ out'.clips.Perm out.clips := by
+  have hpairs := C09_perm_pair_clips hp ha hn
+  obtain ⟨hne, hm, hc, hs, hcov⟩ := C09_sound_event_classification_spec C preds anns out h
+  have hitems : ((pairClips preds' anns').map (fun x => (secMatches C x.2.1 x.2.2).map (·.2.2))).flatten.Perm
+      ((pairClips preds anns).map (fun x => (secMatches C x.2.1 x.2.2).map (·.2.2))).flatten :=
+    ((hpairs.map _).flatten).symm
+  have hne' : ((pairClips preds' anns').map (fun x => (secMatches C x.2.1 x.2.2).map (·.2.2))).flatten ≠ [] := by
+    intro e; rw [e] at hitems; exact hne hitems.symm.eq_nil
+  obtain ⟨out', h'⟩ := soundEventClassification_ok C preds' anns' hne'
+    (fun x hx => hcov x (hpairs.mem_iff.mpr hx))
+  obtain ⟨_, hm', hc', hs', _⟩ := C09_sound_event_classification_spec C preds' anns' out' h'
+  have hclips : out'.clips.Perm out.clips := by rw [hc, hc']; exact (hpairs.map _).symm
+  refine ⟨out', h', ?_, ?_, hclips⟩
+  · rw [hm, hm', balancedAccuracy_perm C hitems, accuracy_perm C hitems, topK_perm 3 C hitems]
+  · rw [hs, hs']; exact C09_perm_overall_score hclips
+
+/-- `sound_event_detection`, for whatever the matcher answered on each clip -/
+theorem C09_perm_sound_event_detection (C : Nat) {preds preds' : List (Nat × Detection.PredClip)}
+    {anns anns' : List (Nat × List SEAnn)}
+    (hp : preds.Perm preds') (ha : anns.Perm anns') (hn : (anns.map (·.1)).Nodup) (out : EvalOut)
+    (h : Detection.soundEventDetection C preds anns = .ok out) :
+    ∃ out', Detection.soundEventDetection C preds' anns' = .ok out' ∧ out'.metrics = out.metrics ∧
+      out'.score = out.score ∧ out'.clips.Perm out.clips := by
+  have hpairs : (Detection.pairClips preds anns).Perm (Detection.pairClips preds' anns') := C09_perm_pair_clips hp ha hn
+  unfold Detection.soundEventDetection at h ⊢
+  cases hrs : (Detection.pairClips preds anns).mapM (Detection.detClip C) with
+  | error e => simp [hrs, bind, Except.bind] at h
+  | ok rs =>
+    obtain ⟨rs', hrs', hperm⟩ := mapM_ok_perm _ hpairs rs hrs
+    simp only [hrs, hrs', bind, Except.bind] at h ⊢
+    have hitems : ((rs.map (·.2)).flatten).Perm ((rs'.map (·.2)).flatten) := (hperm.map _).flatten
+    have hclips : (rs.map (·.1)).Perm (rs'.map (·.1)) := hperm.map _
+    have hsc := hclips.filterMap (·.score)
+    have he : (rs.map (·.2)).flatten.isEmpty = (rs'.map (·.2)).flatten.isEmpty := by
+      rw [Bool.eq_iff_iff, List.isEmpty_iff_length_eq_zero, List.isEmpty_iff_length_eq_zero, hitems.length_eq]
+    have hscore : Detection.meanOrZero ((rs.map (·.1)).filterMap (·.score)) =
+        Detection.meanOrZero ((rs'.map (·.1)).filterMap (·.score)) := by
+      unfold Detection.meanOrZero
+      have : ((rs.map (·.1)).filterMap (·.score)).isEmpty = ((rs'.map (·.1)).filterMap (·.score)).isEmpty := by
+        rw [Bool.eq_iff_iff, List.isEmpty_iff_length_eq_zero, List.isEmpty_iff_length_eq_zero, hsc.length_eq]
+      rw [this, mean_perm hsc]
+    rw [← he, ← C09_perm_run_metrics C hitems]
+    by_cases hemp : (rs.map (·.2)).flatten.isEmpty = true
+    · simp only [hemp, if_true, pure, Except.pure, Except.ok.injEq] at h ⊢
+      subst h
+      exact ⟨_, rfl, rfl, hscore.symm, hclips.symm⟩
+    · simp only [hemp, Bool.false_eq_true, if_false] at h ⊢
+      cases hf : features (taskMetrics .soundEventDetection .run) (runMetricSL C (rs.map (·.2)).flatten) with
+      | error err => simp [hf] at h
+      | ok fs =>
+        simp only [hf, pure, Except.pure, Except.ok.injEq] at h ⊢
+        subst h
+        exact ⟨_, rfl, rfl, hscore.symm, hclips.symm⟩
+
+/-! ### top-k is monotone in k, the multilabel clip score -/
+
+theorem C09_top_k_monotone (k C : Nat) (items : List Item) : topK k C items ≤ topK (k + 1) C items := by
+  unfold topK
+  apply ratio_mono
+  apply List.countP_mono_left
+  intro it _ h
+  simp only [hitK, decide_eq_true_eq] at h ⊢
+  omega
+
+/-- the clip score of the multilabel task, `exp(-log_loss)`, is the product of the (clipped)
+    probabilities of the true classes: it lies in (0, 1], and it is 1 when no class is true -/
+theorem C09_multilabel_clip_score (it : MLItem) :
+    0 < mlScore it ∧ mlScore it ≤ 1 ∧ ((∀ b ∈ it.truth, b = false) → mlScore it = 1) := by
+  refine ⟨(mlScore_range it).1, (mlScore_range it).2, ?_⟩
+  intro h
+  unfold mlScore
+  have : (it.truth.zip it.row).map (fun p => if p.1 then clipEps p.2 else 1) =
+      List.replicate (it.truth.zip it.row).length 1 := by
+    rw [List.eq_replicate_iff]
+    refine ⟨by simp, ?_⟩
+    intro x hx
+    obtain ⟨p, hp, rfl⟩ := List.mem_map.mp hx
+    have := h p.1 (List.of_mem_zip hp).1
+    simp [this]
+  rw [this, prod_replicate_one]
+
+/-- one true class with a probability inside [2⁻²³, 1 − 2⁻²³]: the score is that probability -/
+theorem C09_multilabel_clip_score_single (p : Rat) (h0 : f32eps ≤ p) (h1 : p ≤ 1 - f32eps) :
+    mlScore ⟨[true], [p]⟩ = p := by
+  have : clipEps p = p := by
+    unfold clipEps
+    rw [if_neg (not_lt.mpr h0), if_neg (not_lt.mpr h1)]
+  simp [mlScore, prod, this]
+
+example : mlScore ⟨[true, true, false], [1/2, 1/4, 1/4]⟩ = 1/8 := by decide +kernel
+example : mlScore ⟨[true, true], [0, 0]⟩ = 1 / 70368744177664 := by decide +kernel
+-- a tie with the left-over mass ranks the 'none' column first: class 0 is third here
+example : hitK 2 2 ⟨some 0, [1/4, 1/2]⟩ = false ∧ hitK 3 2 ⟨some 0, [1/4, 1/2]⟩ = true := by decide +kernel
+
+
+/-! ### balanced data, two-dimensional inputs (review additions) -/
+
+/-- "for balanced datasets, the score is equal to accuracy" (the definition of the term): when every
+    class that occurs in the truth ('none' included) occurs equally often, balanced accuracy is accuracy -/
+theorem C09_balanced_accuracy_balanced_is_accuracy (C : Nat) (items : List Item) (m : Nat)
+    (hb : ∀ it ∈ items, trueIdx C it.y ≤ C)
+    (hm : ∀ c ∈ presentClasses C items, items.countP (fun it => trueIdx C it.y == c) = m) :
+    balancedAccuracy C items = accuracy C items := balancedAccuracy_eq_accuracy_of_balanced C items m hb hm
+
+theorem C09_range_jaccard_samples (rows : List MLItem) : 0 ≤ jaccardSamples rows ∧ jaccardSamples rows ≤ 1 := by
+  unfold jaccardSamples
+  apply mean_range
+  intro x hx
+  obtain ⟨r, _, rfl⟩ := List.mem_map.mp hx
+  exact jaccard_range r
+
+theorem C09_micro_average_precision (rows : List MLItem) :
+    0 ≤ microAP rows ∧ microAP rows ≤ 1 ∧ ∀ it : MLItem, microAP [it] = exampleAP it := by
+  refine ⟨(averagePrecision_range _).1, (averagePrecision_range _).2, ?_⟩
+  intro it
+  simp [microAP, exampleAP]
+
+example : jaccardSamples [⟨[true, false], [3/4, 1/4]⟩, ⟨[true, true], [3/4, 1/4]⟩] = 3/4 := by decide +kernel
+
 /-! ### non-vacuity: concrete instances of the hypotheses and conventions above -/
 
 -- first-wins argmax against last-wins top-k on a four-way tie: correct, yet not in the top 3
@@ -509,6 +903,26 @@ example : pairClips [(3, "p3"), (1, "p1"), (7, "p7")] [(1, "a1"), (3, "a3"), (5,
   decide
 -- a task driver returns a value (hypothesis `… = .ok out` of the spec theorems)
 example : (clipClassification 2 [(0, ⟨[(some 0, 1/2)]⟩)] [(0, ⟨[some 0]⟩)]).toOption.map (·.score) = some (1/2) := by
+  decide +kernel
+
+-- the drivers return a value (hypothesis `… = .ok out` of the distinct-terms and permutation theorems)
+example : (soundEventClassification 2 [(0, [⟨7, true, [(some 0, 1/2)]⟩]), (1, [])] [(1, []), (0, [⟨7, true, [some 1]⟩])]).toOption.map
+    (fun o => (o.score, o.metrics.map (·.1), o.clips.map (·.score))) =
+    some (0, ["Balanced Accuracy", "Accuracy", "Top 3 Accuracy"], [some 0, none]) := by decide +kernel
+example : (clipMultilabel 2 [(0, ⟨[(some 0, 3/4)]⟩)] [(0, ⟨[some 0]⟩)] [3/4]).toOption.map
+    (fun o => (o.score, o.metrics, o.clips.map (·.metrics))) =
+    some (3/4, [("Mean Average Precision", 1/2)], [[("Jaccard Index", 1), ("Average Precision", 1)]]) := by decide +kernel
+example : (Detection.soundEventDetection 2 [(0, ⟨[⟨7, true, [(some 0, 1/2)]⟩], [⟨some 0, some 0, 1/2⟩]⟩)]
+    [(0, [⟨8, true, [some 0]⟩])]).toOption.map (fun o => (o.score, o.metrics.map (·.1), o.clips.map (fun c => c.mts.map (fun m => m.metrics.map (·.1))))) =
+    some (1/2, ["Mean Average Precision", "Balanced Accuracy", "Accuracy", "Top 3 Accuracy"], [[["True Class Probability"]]]) := by
+  decide +kernel
+-- a balanced truth (each present class once): balanced accuracy = accuracy
+example : balancedAccuracy 2 [⟨some 0, [1/2, 1/4]⟩, ⟨some 1, [1/2, 1/4]⟩, ⟨none, [1/4, 1/4]⟩] = 2/3 ∧
+    accuracy 2 [⟨some 0, [1/2, 1/4]⟩, ⟨some 1, [1/2, 1/4]⟩, ⟨none, [1/4, 1/4]⟩] = 2/3 := by decide +kernel
+
+-- a predicted sound event that is not annotated in its clip (or the converse): `ClipEvaluation` rejects the clip
+example : (soundEventClassification 2 [(0, [⟨7, true, [(some 0, 1/2)]⟩, ⟨9, true, []⟩])] [(0, [⟨7, true, [some 0]⟩])]).toOption.isSome = false ∧
+    (soundEventClassification 2 [(0, [⟨7, true, [(some 0, 1/2)]⟩])] [(0, [⟨7, true, [some 0]⟩, ⟨8, true, []⟩])]).toOption.isSome = false := by
   decide +kernel
 
 end SE.Proofs.C09
